@@ -292,7 +292,9 @@ type c10CLI struct {
 	Answer string   // stdin
 	Edit   bool     // edit a config after the first run so that a replace is due
 	// Scenario: "" | "edit-root-add-leaf" (root edited and a new leaf created under it in the same run) |
-	// "sec1-key" (root artifact = valid certificate followed by a key block gopki cannot parse)
+	// "sec1-key" (root artifact = valid certificate followed by a key block gopki cannot parse) |
+	// "root-pem-deleted" / "root-cert-stripped" (the issuer has to be created anew, so the leaf - which holds a certificate -
+	// is only due for replacement because of its issuer)
 	Scenario string `json:",omitempty"`
 }
 
@@ -332,6 +334,11 @@ func checkC10CLI(c c10CLI) (*core.Failure, string) {
 		nl := core.Entity{File: "sub/new-leaf.yaml", Subject: []core.RDN{{Key: "CN", Value: "CLI New Leaf"}}, Issuer: "root"}
 		c.W.Ents = append(c.W.Ents, nl)
 		d.Put(nl.File, nl.Render())
+	case "root-pem-deleted":
+		delete(d.Files, "root.pem")
+	case "root-cert-stripped":
+		a := core.ParseArtifact(d.Files["root.pem"].Data)
+		d.Put("root.pem", core.PemBlock("PRIVATE KEY", a.KeyDER))
 	case "sec1-key":
 		a := core.ParseArtifact(d.Files["root.pem"].Data)
 		if k, err := xref.ParsePKCS8(a.KeyDER); err == nil && k.Kind == "ec" {
@@ -470,7 +477,7 @@ func TestC10(t *testing.T) {
 		if strings.HasPrefix(kind, "cli") {
 			key = fmt.Sprintf("cli %v %q %v %v", c.Args, c.Answer, c.Edit, c.W.Texts())
 		}
-		r.Case(key, "cli:"+kind)
+		r.Case(key, "cli:"+kind, "cli-scenario:"+c.Scenario)
 		r.Sample("cli:"+kind, map[string]any{"args": c.Args, "answer": c.Answer, "edit": c.Edit})
 		return f
 	}
@@ -527,7 +534,7 @@ func TestC10(t *testing.T) {
 		}
 		c.Answer = rapid.SampledFrom([]string{"y\n", "Y\n", " y \n", "n\n", "\n", "yes\n", "x\n", "", "y", "N\n", "\ty\r\n"}).Draw(t, "answer")
 		c.Edit = rapid.Bool().Draw(t, "edit")
-		c.Scenario = rapid.SampledFrom([]string{"", "", "edit-root-add-leaf", "sec1-key"}).Draw(t, "scenario")
+		c.Scenario = rapid.SampledFrom([]string{"", "", "edit-root-add-leaf", "sec1-key", "root-pem-deleted", "root-cert-stripped"}).Draw(t, "scenario")
 		if c.Scenario == "sec1-key" && rapid.Bool().Draw(t, "root-only") {
 			c.W.Ents = c.W.Ents[:1] // no other entity whose replacement would trigger the prompt anyway
 			c.Edit = false
